@@ -21,11 +21,41 @@ open Util
 open Memrun
 
 type op = {
-  id : string; inv : int; res : int; sec : z; ms : z; mode : string; obs : string;
+  id : string; inv : int; res : int; sec : z; ms : z; rsec : z; rms : z; mode : string; obs : string;
   stages : (byte list list) array; name : string;
 }
 
 let max_int_res = max_int
+
+(* The implementation reads the wall clock somewhere between invocation and response.  The
+   candidate clocks (seconds, milliseconds) a step of the op may have seen: the invocation
+   instant, every later second boundary up to the response, the response instant -- and, for a
+   command whose reply carries the millisecond it read (XADD with an auto-generated id), that
+   millisecond clamped into [invocation, response]. *)
+let zi (z : z) : int = int_of_string (string_of_z z)
+let iz (i : int) : z = z_of_string (string_of_int i)
+
+let clocks (o : op) : (z * z) list =
+  let s0 = zi o.sec and m0 = zi o.ms and s1 = zi o.rsec and m1 = zi o.rms in
+  let base = [(s0, m0)] in
+  let bounds = List.filter (fun (s, _) -> s > s0 && s <= s1)
+      (List.init (max 0 (min 5 (s1 - s0))) (fun i -> (s0 + i + 1, (s0 + i + 1) * 1000))) in
+  let last = if m1 > m0 then [(s1, m1)] else [] in
+  let from_reply =
+    if o.name = "xadd" && String.length o.obs > 1 && o.obs.[0] = '$' && o.obs <> "$nil" then begin
+      match (try Some (unhex (String.sub o.obs 1 (String.length o.obs - 1))) with _ -> None) with
+      | Some id ->
+        (match String.index_opt id '-' with
+         | Some i ->
+           (match int_of_string_opt (String.sub id 0 i) with
+            | Some ms -> let ms = max m0 (min m1 ms) in [(ms / 1000, ms)]
+            | None -> [])
+         | None -> [])
+      | None -> []
+    end else [] in
+  let all = from_reply @ base @ bounds @ last in
+  let rec dedup l = match l with [] -> [] | x :: r -> x :: dedup (List.filter (fun y -> y <> x) r) in
+  List.map (fun (s, m) -> (iz s, iz m)) (dedup all)
 
 let strip_ttl (l : string) : string =
   (* "D 0 <key> <ttl> <rest>": deadlines are compared as present/absent only *)
@@ -130,22 +160,29 @@ let check_component name keys ops final nofinal budget =
           let o = ops.(i) in
           let st = Char.code (Bytes.get prog i) in
           let hint = if o.mode = "one" then parse_reply o.obs else RNil in
-          let (r, srv') = srv_exec srv (z_of_string "0") o.sec o.ms o.stages.(st) hint in
           let last = st + 1 = Array.length o.stages in
-          let ok =
-            if o.mode = "pending" then true
-            else if not last then stage_plausible o st r partial.(i)
-            else combine o (List.rev (r :: partial.(i))) = o.obs in
-          if ok then begin
-            Bytes.set prog i (Char.chr (st + 1));
-            let saved = partial.(i) in
-            partial.(i) <- r :: saved;
-            incr depth;
-            search srv';
-            decr depth;
-            partial.(i) <- saved;
-            Bytes.set prog i (Char.chr st)
-          end
+          let tried = ref [] in
+          List.iter (fun (csec, cms) ->
+              let (r, srv') = srv_exec srv (z_of_string "0") csec cms o.stages.(st) hint in
+              (* two clocks with the same reply and the same next state are one alternative *)
+              let sig_ = Digest.string (Marshal.to_string (r, srv') []) in
+              if not (List.mem sig_ !tried) then begin
+                tried := sig_ :: !tried;
+                let ok =
+                  if o.mode = "pending" then true
+                  else if not last then stage_plausible o st r partial.(i)
+                  else combine o (List.rev (r :: partial.(i))) = o.obs in
+                if ok then begin
+                  Bytes.set prog i (Char.chr (st + 1));
+                  let saved = partial.(i) in
+                  partial.(i) <- r :: saved;
+                  incr depth;
+                  search srv';
+                  decr depth;
+                  partial.(i) <- saved;
+                  Bytes.set prog i (Char.chr st)
+                end
+              end) (clocks o)
         end
       done
     end in
@@ -178,9 +215,10 @@ let run_lin infile outfile budget =
         let left = split_ws (String.sub l 0 bar) in
         let obs = String.trim (String.sub l (bar + 1) (String.length l - bar - 1)) in
         (match left with
-         | [_; id; inv; res; sec; ms; mode] ->
+         | [_; id; inv; res; sec; ms; rsec; rms; mode] ->
            cur := Some ({ id; inv = int_of_string inv; res = int_of_string res; sec = z_of_string sec;
-                          ms = z_of_string ms; mode; obs; stages = [||]; name = "" }, [])
+                          ms = z_of_string ms; rsec = z_of_string rsec; rms = z_of_string rms;
+                          mode; obs; stages = [||]; name = "" }, [])
          | _ -> failwith ("bad O line: " ^ l))
       end else if starts_with l "G " then begin
         let args = List.map unhx (List.tl (split_ws l)) in
